@@ -313,7 +313,9 @@ def _index_R(a, b, name, dtype, cls, skipna):
             return False
     la, lb = canon.index_labels(a), canon.index_labels(b)
     for x, y in zip(la, lb):
-        if isinstance(x, tuple):
+        if isinstance(x, tuple) or isinstance(y, tuple):
+            if not (isinstance(x, tuple) and isinstance(y, tuple) and len(x) == len(y)):
+                return False  # a tuple label never equals a scalar label or a tuple of another length
             if not all(_el_eq(p, q, skipna) for p, q in zip(x, y)):
                 return False
         elif not _el_eq(x, y, skipna):
